@@ -73,6 +73,8 @@ pub type Env = Rc<RefCell<WorldShared>>;
 pub struct ConsumerShared {
     pub id: usize,
     pub chain_len: usize,
+    /// Properties of the adapters stacked on the raw stream (plus C12 for chains, C13 if batched).
+    pub chain_props: Vec<String>,
     pub retire: Cell<Option<&'static str>>,
     pub violation: RefCell<Option<Violation>>,
 }
@@ -90,6 +92,17 @@ impl ConsumerShared {
             const AFTER_DROP: &[&str] = &["inapplicable_diff", "diff_depends_on_polling", "replay_mismatch_at_boundary", "batched_intermediate_state", "batched_not_up_to_date", "reset_inside_batch"];
             if stage == 0 && AFTER_DROP.contains(&oracle) && env.borrow().dropped && !p.iter().any(|x| x == "C08") {
                 p.push("C08".into());
+            }
+            // The adapters' statements are about the *source vector*: when the raw stream below them
+            // hands out wrong data (lost updates, a stale Reset, a state the vector never had), every
+            // adapter stacked on it shows a wrong view of the vector however faithfully it maps its input.
+            const WRONG_DATA: &[&str] = &["inapplicable_diff", "replay_mismatch_at_boundary", "batched_intermediate_state", "batched_not_up_to_date", "reset_not_current", "ended_on_stale_state"];
+            if stage == 0 && WRONG_DATA.contains(&oracle) {
+                for q in &self.chain_props {
+                    if !p.contains(q) {
+                        p.push(q.clone());
+                    }
+                }
             }
             *v = Some(Violation { props: p, oracle: oracle.into(), stage, step: env.borrow().step, detail });
         }
